@@ -85,12 +85,13 @@ Path = namedtuple('Path', 'events facts store ret exit trace entry_fn')
 
 class Engine:
     def __init__(self, facts, *, max_depth=6, max_visits=3, max_paths=20000,
-                 inline_filter=None, fanout_traits=()):
+                 inline_filter=None, fanout_traits=(), inline_queue_helpers=False):
         self.F = facts
         self.max_depth = max_depth
         self.max_visits = max_visits
         self.max_paths = max_paths
         self.inline_filter = inline_filter
+        self.inline_queue_helpers = inline_queue_helpers   # C20 looks inside the containers themselves
         self.fanout_traits = tuple(fanout_traits)
         self.enums = {}
         self.yield_pruned = False
@@ -743,7 +744,7 @@ class Engine:
             return False
         if len(st.stack) >= self.max_depth:
             return False
-        if ci['radt'] in QUEUE_ADTS:
+        if ci['radt'] in QUEUE_ADTS and not self.inline_queue_helpers:
             return False
         if (callee.get('impl_trait') or '').endswith('fmt::Debug'):
             return False
@@ -943,6 +944,9 @@ class Engine:
                 return self._opt_fork(st, v, lambda s: some(('pin', ('ref', loc + (('dc', 'Some'), '0')))))
             return None
 
+        # ---- an Option used as a one-element iterator: opt.into_iter().for_each(f)
+        if name == 'into_iter' and len(args) == 1 and 'option::Option' in path + (ci.get('gargs_str') or ''):
+            return [(st, ('optiter', args[0]))]
         # ---- Option / Poll helpers
         if path.startswith('std::option::Option'):
             if name == 'take':
@@ -1066,8 +1070,6 @@ class Engine:
                                            'argtys': ['&T']})
                         outs.append((st2, some(('ret', eid))))
                 return outs
-            if name == 'into_iter' and len(args) == 1:
-                return [(st, ('optiter', args[0]))]
         if name == 'for_each' and args and isinstance(args[0], tuple) and args[0] and args[0][0] == 'optiter':
             outs = []
             for st2, inner in self._opt_split(st, args[0][1]):
